@@ -871,10 +871,26 @@ package scipipe
 //@   loop 0 invariant closed: forall k string, q ref :: k in procs && directUp(q, procs[k]) ==> listed(procs, q)
 //@   loop 0 invariant only-upstream: forall k string :: k in procs ==> directUp(procs[k], proc) || (exists k2 string :: k2 in procs && directUp(procs[k], procs[k2]))
 //@   loop 1 invariant fresh: fresh(procs) && procs != nil
-//@   loop 1 invariant cur: inp != nil && (exists i string :: i in inPortsOf(proc) && !$visited0[i] && inPortsOf(proc)[i] == inp)
+//@   loop 1 invariant cur: inp != nil && (exists i string :: i in inPortsOf(proc) && inPortsOf(proc)[i] == inp)
 //@   loop 1 invariant vis: forall r string :: $visited[r] ==> r in inp.RemotePorts
 //@   loop 1 invariant keyed: forall k string :: k in procs ==> procs[k] != nil && procName(procs[k]) == k
 //@   loop 1 invariant direct-prev: forall i string, r string :: $visited0[i] && inPortsOf(proc)[i] != inp && r in inPortsOf(proc)[i].RemotePorts ==> listed(procs, inPortsOf(proc)[i].RemotePorts[r].process)
 //@   loop 1 invariant direct-cur: forall r string :: $visited[r] ==> listed(procs, inp.RemotePorts[r].process)
 //@   loop 1 invariant closed: forall k string, q ref :: k in procs && directUp(q, procs[k]) ==> listed(procs, q)
 //@   loop 1 invariant only-upstream: forall k string :: k in procs ==> directUp(procs[k], proc) || (exists k2 string :: k2 in procs && directUp(procs[k], procs[k2]))
+//@   loop 2 invariant fresh: fresh(procs) && procs != nil
+//@   loop 2 invariant vis: forall i string :: $visited[i] ==> i in inParamPortsOf(proc)
+//@   loop 2 invariant keyed: forall k string :: k in procs ==> procs[k] != nil && procName(procs[k]) == k
+//@   loop 2 invariant direct-in: forall i string, r string :: i in inPortsOf(proc) && r in inPortsOf(proc)[i].RemotePorts ==> listed(procs, inPortsOf(proc)[i].RemotePorts[r].process)
+//@   loop 2 invariant direct: forall i string, r string :: $visited[i] && r in inParamPortsOf(proc)[i].RemotePorts ==> listed(procs, inParamPortsOf(proc)[i].RemotePorts[r].process)
+//@   loop 2 invariant closed: forall k string, q ref :: k in procs && directUp(q, procs[k]) ==> listed(procs, q)
+//@   loop 2 invariant only-upstream: forall k string :: k in procs ==> directUp(procs[k], proc) || (exists k2 string :: k2 in procs && directUp(procs[k], procs[k2]))
+//@   loop 3 invariant fresh: fresh(procs) && procs != nil
+//@   loop 3 invariant cur: pip != nil && (exists i string :: i in inParamPortsOf(proc) && inParamPortsOf(proc)[i] == pip)
+//@   loop 3 invariant vis: forall r string :: $visited[r] ==> r in pip.RemotePorts
+//@   loop 3 invariant keyed: forall k string :: k in procs ==> procs[k] != nil && procName(procs[k]) == k
+//@   loop 3 invariant direct-in: forall i string, r string :: i in inPortsOf(proc) && r in inPortsOf(proc)[i].RemotePorts ==> listed(procs, inPortsOf(proc)[i].RemotePorts[r].process)
+//@   loop 3 invariant direct-prev: forall i string, r string :: $visited2[i] && inParamPortsOf(proc)[i] != pip && r in inParamPortsOf(proc)[i].RemotePorts ==> listed(procs, inParamPortsOf(proc)[i].RemotePorts[r].process)
+//@   loop 3 invariant direct-cur: forall r string :: $visited[r] ==> listed(procs, pip.RemotePorts[r].process)
+//@   loop 3 invariant closed: forall k string, q ref :: k in procs && directUp(q, procs[k]) ==> listed(procs, q)
+//@   loop 3 invariant only-upstream: forall k string :: k in procs ==> directUp(procs[k], proc) || (exists k2 string :: k2 in procs && directUp(procs[k], procs[k2]))
